@@ -51,7 +51,13 @@ RULE = ('histories of set_channel / set_measurement / rm_channel / register_prog
         'wired channel), same Loop object again after a call that raised AFTER taking its measurements (unknown '
         'measurement -> set_measurement -> retry; ProgramOverwriteException -> update=True), measurements attached to an '
         'object between registrations.  '
-        'Known finding vs VIOLATION is decided by Corr.check_framed in coqc.  Non-trivial = at least one registration returned '
+        'Round 5: targeted-ephemeral + ephemeral (Loop objects that die - removed / replaced by update / cleared / after a '
+        'raising call - and NEW objects allocated at the address of a dead one: the setup keys its memory of taken '
+        'measurements by id(); before, the harness kept every Loop alive), post-conditions for COVERED names made '
+        'deterministic (update_parameters / arm / remove after the generator of a used id moved or was un-wired) and the '
+        'acquisition-side twin "the only mask of a recorded device is moved away" (device leaves known_dacs while it holds '
+        'the windows).  '
+        'Known finding vs VIOLATION is decided in coqc: known iff Corr.check_plain rejects AND Corr.check_framed accepts.  Non-trivial = at least one registration returned '
         'normally and one later operation touched devices; distinct = canonical JSON of the case.')
 TRUSTED = [
     'Coq 8.16.1 kernel + vm_compute (no native_compute)',
@@ -59,14 +65,22 @@ TRUSTED = [
     '_measurement_windows, armed_program) cross-checked after every call against what the devices were told through '
     'the AWG/DAC interface and against AWG.programs / known_awgs / known_dacs; HardwareSetup.registered_channels(), '
     '._measurement_map, .registered_programs; DummyAWG.set_volatile_parameters replaced by a recorder',
-    'classification of specification failures (known finding vs VIOLATION) is Corr.check_framed evaluated by coqc; its '
+    'classification of specification failures (known finding vs VIOLATION) is Corr.check_plain / check_framed evaluated by '
+    'coqc (known iff plain rejects and framed accepts; a failure only the Python mirror sees is a VIOLATION); its '
     'status tracker otrack_awg / otrack_dac is proved equal to Spec.track_awg / track_dac on the model\'s views; the Python '
     'mirror in c18_spec.py only words messages, histograms and guides shrinking',
     'iteration order of Python sets / dicts inside register_program is not modelled: the channel order, measurement '
     'order and AWG upload order of each call are inputs of the model step; the harness picks an order that explains the '
     'recorded outcome (winner of several names wired to one output / mask), upload order is observed by wrapping upload',
     '"the program\'s own windows" = Loop.get_measurement_windows() (property C02) of a structurally equal twin object '
-    'that is never handed to the setup (+ whatever the harness attached to both later); explicit `measurements=` if given',
+    'that is never handed to the setup (+ whatever the harness attached to both later); explicit `measurements=` if given.  '
+    'In the Coq model they are an INPUT of register_program (p_meas): the setup\'s per-object memory of what it took out of a '
+    'Loop (_take_measurements, repair bc650d0) is not modelled, so "the registered windows are the object\'s own windows" is '
+    'tested (same-object, attach, dead-object / id-reuse families), not proved',
+    'Spec.v / Corr.check_spec share with Model.v only data types, association-list helpers (lookup, has_key, keys, '
+    'remove_key, get_set, memN, nodupN), known_awgs / known_dacs (= the devices occurring in the wiring maps), py_index '
+    '(Python negative indexing) and the empty initial state; check_spec never calls a model operation (step, '
+    'register_program, ...)',
     'Python semantics of dict/set/list indexing as mirrored in coq/C18/Model.v',
 ]
 ASSUMPTIONS = [
@@ -76,8 +90,9 @@ ASSUMPTIONS = [
     'that was ever attached to that object - NOT what is left on it after the setup took the measurements out '
     '(round 4: the old reading made the loss of windows on re-registration of the same object invisible; repaired in '
     '/repo bc650d0)',
-    'the property is evaluated on histories of calls that returned normally; calls that raised without any observable '
-    'effect are skipped, after a call that raised with an effect the specification is no longer evaluated',
+    'the plain routing invariant (check_plain) is evaluated on histories of calls that returned normally; calls that raised '
+    'without any observable effect are skipped, after a call that raised with an effect check_plain is silent; the framed '
+    'invariant (check_framed, proved for histories with raising calls) keeps being evaluated',
 ]
 
 CH = 'ABCDEFGH'
@@ -90,6 +105,9 @@ ERRS = {'TypeError': 'ETypeError', 'KeyError': 'EKeyError', 'ValueError': 'EValu
 
 class _Ctx:
     pass
+
+
+_ANY = object()      # shadow state: "the interface does not say"
 
 
 class _Collide:
@@ -207,6 +225,8 @@ def _run(case):
     chpool = {}          # (awg, index, marker, trafo) -> hardware channel object reused across calls (case['chpool'])
     cblog = []
     upload_log = []
+    dead_ids = []        # ids of `ephemeral` Loop objects (not kept alive by the harness: they die as soon as the setup
+    reused = [0]         # and the devices drop them); `reuse`: the next object is allocated at such an address if possible
 
     vollog = []
     # Second observation path: what every device was TOLD through the public AWG / DAC interface (upload / remove /
@@ -263,7 +283,10 @@ def _run(case):
             r = o_del(program_name)
             sh['wins'].pop(program_name, None)
             if sh['armed'] == program_name:
-                sh['armed'] = None
+                # Round 5: whether the device is still armed after it was told to delete the armed program is what the
+                # SPECIFICATION judges (armed => holds windows), not the harness: a device that stays armed (seed C18-8)
+                # used to be reported as an observation mismatch (harness crash) instead of a property violation
+                sh['armed'] = _ANY
             return r
 
         def clear():
@@ -300,7 +323,7 @@ def _run(case):
             if a._armed != sh_awg[i]['armed']:
                 raise ObservationMismatch('AWG %d: _armed %r, told %r' % (i, a._armed, sh_awg[i]['armed']))
         for i, d in enumerate(dacs):
-            if d.armed_program != d._armed_program or d.armed_program != sh_dac[i]['armed']:
+            if d.armed_program != d._armed_program or (sh_dac[i]['armed'] is not _ANY and d.armed_program != sh_dac[i]['armed']):
                 raise ObservationMismatch('DAC %d: armed_program %r, _armed_program %r, told %r'
                                           % (i, d.armed_program, d._armed_program, sh_dac[i]['armed']))
             # Which programs the device holds must be what it was told; WHAT it holds per program is the observation the
@@ -430,8 +453,27 @@ def _run(case):
                     if progs[id(program)] != pd['tag']:   # the measurements out of it)
                         raise RuntimeError('generator: pooled program object with two tags')
                 else:
-                    program = _mk_program(dict(pd, _ids=IDS))
-                    keep.append(program)
+                    program = None
+                    if op.get('reuse') and dead_ids:
+                        # Round 5: a NEW object at the address of a dead one (CPython hands a freed block out again):
+                        # whatever the setup remembers about the dead object by id() must not leak into this one
+                        import gc
+                        gc.collect()
+                        junk = []
+                        for _ in range(48):
+                            cand = _mk_program(dict(pd, _ids=IDS))
+                            if id(cand) in dead_ids and not any(id(cand) == id(x) for x in keep):
+                                program = cand
+                                reused[0] += 1
+                                break
+                            junk.append(cand)
+                        del junk
+                    if program is None:
+                        program = _mk_program(dict(pd, _ids=IDS))
+                    if op.get('ephemeral'):
+                        dead_ids.append(id(program))
+                    else:
+                        keep.append(program)
                     progs[id(program)] = pd['tag']
                     # "the program's own windows" = everything that was ever attached to this object.  They are read off a
                     # twin that is never handed to the setup (the setup strips the object it is given).
@@ -503,13 +545,17 @@ def _run(case):
                 err = 'ProgramOverwriteException'
             else:
                 raise
+        program = first = None     # an ephemeral object must not be kept alive by these locals
         st = snapshot(err)
         if hint is not None:
             if err is None:
                 resolve_hints(case, hint, st, op['name'])
             st['hint'] = hint
         steps.append(st)
-    return {'steps': steps}
+    out = {'steps': steps}
+    if any(o.get('reuse') for o in case['ops']):
+        out['reused'] = reused[0]
+    return out
 
 
 # ---------------------------------------------------------------------------------------------------------------------
@@ -956,6 +1002,26 @@ def targeted(rng):
         # the same channel set given again (other order, set instead of list) is not a re-wiring
         [reg(1, pB), {'op': 'set_channel', 'id': 1, 'arg': {'k': 'many', 'chs': [[1, 0, True, 0], [1, 1, False, 1]], 'as_set': True},
                       'allow': True}, {'op': 'arm', 'name': 1}, {'op': 'clear'}],
+        # Round 5 (audit of the known-finding class): post-conditions for a COVERED name were only reached through sampled /
+        # random histories.  update_parameters / arm / remove after the generator of a used id was moved or un-wired ...
+        [reg(0, pA), {'op': 'set_channel', 'id': 0, 'arg': {'k': 'many', 'chs': [[1, 0, False, 0]]}, 'allow': False},
+         {'op': 'update_params', 'name': 0, 'ptag': 5}, {'op': 'remove', 'name': 0}],
+        [reg(0, pA), {'op': 'rm_channel', 'id': 0}, {'op': 'update_params', 'name': 0, 'ptag': 5}, {'op': 'arm', 'name': 0},
+         {'op': 'remove', 'name': 0}],
+        [reg(0, pAB), {'op': 'set_channel', 'id': 1, 'arg': {'k': 'many', 'chs': [[0, 1, False, 0]]}, 'allow': False},
+         {'op': 'update_params', 'name': 0, 'ptag': 6}, {'op': 'arm', 'name': 0}, reg(0, pAB, True),
+         {'op': 'update_params', 'name': 0, 'ptag': 7}],
+        # ... and the acquisition-side twin of "generator no longer wired": the only mask of a recorded device is moved
+        # away, so the device drops out of known_dacs while it still holds the windows (arm must still arm it, remove /
+        # update re-registration must still delete there; clear_programs skips it: lost)
+        [reg(1, pB), {'op': 'set_measurement', 'name': 1, 'arg': {'k': 'many', 'masks': [2]}, 'allow': False},
+         {'op': 'arm', 'name': 1}, {'op': 'remove', 'name': 1}],
+        [reg(1, pB), {'op': 'set_measurement', 'name': 1, 'arg': {'k': 'many', 'masks': [2]}, 'allow': False},
+         reg(1, pB, True), {'op': 'arm', 'name': 1}],
+        [reg(1, pB), {'op': 'arm', 'name': 1}, {'op': 'set_measurement', 'name': 1, 'arg': {'k': 'many', 'masks': []}, 'allow': False},
+         {'op': 'run', 'name': 1}, {'op': 'clear'}, reg(0, pA), {'op': 'arm', 'name': 0}],
+        [reg(0, pAB), {'op': 'set_measurement', 'name': 1, 'arg': {'k': 'many', 'masks': [2]}, 'allow': False},
+         {'op': 'arm', 'name': 0}, reg(1, pA), {'op': 'arm', 'name': 1}, {'op': 'remove', 'name': 0}],
     ]
     for h in hs:
         for ids in (None, [0, 1, 2, 3, 4, 5, 6, 7]):
@@ -1359,6 +1425,62 @@ def targeted_multimask():
     return out
 
 
+def targeted_ephemeral():
+    """Round 5: program objects that DIE (nobody but the setup and the devices referenced them) and new objects that are
+    allocated at the address of a dead one.  register_program remembers per Loop object (keyed by id()) which
+    measurements it took out of it (repair bc650d0); all earlier streams kept every Loop alive for the whole history, so
+    "a new program inherits the windows of a dead one whose id() it got" could not occur.  Ways to die: remove_program,
+    replaced by update=True, clear_programs, a registration that raised after the measurements were taken."""
+    base = {'kind': 'hist', 'stream': 'targeted-ephemeral', 'awgs': [[2, 1], [1, 0]], 'ndacs': 2,
+            'masks': [[0, 0], [1, 0], [0, 1]]}
+    sm = lambda name, ms: {'op': 'set_measurement', 'name': name, 'arg': {'k': 'many', 'masks': ms}, 'allow': False}
+    w = [set_ch(0, [[0, 0, False, 0]]), set_ch(1, [[1, 0, False, 0]]), sm(0, [0]), sm(1, [1])]
+    P = {'chans': [0], 'meas': [[0, 0, 1]], 'shape': 'leaf'}
+    P2 = {'chans': [0], 'meas': [[0, 2, 1]], 'shape': 'leaf'}
+    Q = {'chans': [0], 'meas': [], 'shape': 'leaf'}
+    R = {'chans': [0, 1], 'meas': [[1, 1, 2]], 'shape': 'leaf'}
+    PX = {'chans': [0], 'meas': [[0, 0, 1], [3, 1, 1]], 'shape': 'leaf'}     # measurement name 3 is not wired
+    S2 = {'chans': [0], 'meas': [[0, 0, 1], [1, 4, 1]], 'shape': 'seq', 'rep': 2}
+    n = [0]
+
+    def reg(name, d, u=False, eph=True, reuse=False, **kw):
+        n[0] += 1
+        return dict({'op': 'register', 'name': name, 'prog': dict(d, tag=300 + n[0]), 'update': u, 'ephemeral': eph,
+                     'reuse': reuse}, **kw)
+    arm, rem = (lambda k: {'op': 'arm', 'name': k}), (lambda k: {'op': 'remove', 'name': k})
+    hs = [
+        [reg(0, P), rem(0), reg(1, Q, reuse=True), arm(1)],                            # dies by remove_program
+        [reg(0, P), rem(0), reg(0, P2, reuse=True), arm(0)],                           # same name, other windows
+        [reg(0, P), reg(0, Q, True), reg(1, R, reuse=True), arm(1)],                   # dies by update=True
+        [reg(0, S2), {'op': 'clear'}, reg(0, R, reuse=True), arm(0), rem(0)],          # dies by clear_programs
+        [reg(0, PX), reg(0, Q, reuse=True), arm(0)],                                   # dies after KeyError (taken before)
+        [reg(0, P, eph=False), reg(0, S2), reg(1, Q, reuse=True), arm(1)],             # dies after ProgramOverwriteException
+        [reg(0, P), rem(0), reg(1, Q, reuse=True), rem(1), reg(0, R, reuse=True), arm(0)],
+        [reg(0, P), reg(0, P2, True, reuse=True), reg(0, Q, True, reuse=True), reg(0, P, True, reuse=True), arm(0)],
+        [reg(0, P, explicit=[[1, [3], [1]]]), rem(0), reg(0, Q, reuse=True), arm(0)],  # explicit: nothing remembered
+    ]
+    out = []
+    for h in hs:
+        for ids in (None, [0, 1, 2, 3, 4, 5, 6, 7]):
+            c = dict(base, ops=[dict(o) for o in w] + [dict(o) for o in h])
+            if ids is not None:
+                c['ids'] = ids
+            out.append(c)
+    return out
+
+
+def ephemeral_history(rng):
+    """a free random history in which no program object is kept alive by the harness and every new object is allocated
+    at the address of a dead one when the allocator allows it"""
+    c = rnd_history(rng, rng.randint(8, 16), clean=False)
+    c['stream'] = 'ephemeral'
+    for o in c['ops']:
+        if o['op'] == 'register':
+            o['ephemeral'] = True
+            o['reuse'] = True
+    return c
+
+
 IDENT_WIRING = [
     set_ch(0, [[0, 0, False, 0]]),
     set_ch(1, [[0, 1, False, 0], [1, 0, False, 0]]),
@@ -1399,7 +1521,7 @@ def exhaustive_identity(max_len, min_len=1):
 
 
 def gen_cases(rng, tier, ctx):
-    cases = targeted(rng) + targeted_identity() + targeted_multimask() + targeted_malformed()
+    cases = targeted(rng) + targeted_identity() + targeted_multimask() + targeted_malformed() + targeted_ephemeral()
     n = {'quick': 1, 'thorough': 12}[tier]
     for _ in range(130 * n):
         cases.append(identity_history(rng))
@@ -1423,6 +1545,8 @@ def gen_cases(rng, tier, ctx):
         for _ in range(600):
             cases.append(rnd_history(rng, rng.randint(16, 28), clean=rng.random() < 0.6))
     cases.extend(ex)
+    for _ in range(40 * n):                        # round 5 (appended last: the earlier streams draw the same numbers as before)
+        cases.append(ephemeral_history(rng))
     return cases
 
 
@@ -1454,6 +1578,8 @@ def histogram_keys(case, obs):
     keys.append('spec:' + ('ok' if verdict is None else verdict['clause']))
     if case.get('ids'):
         keys.append('ids:int' if all(isinstance(x, int) for x in case['ids']) else 'ids:mixed')
+    if 'reused' in obs:
+        keys.append('idreuse:%s' % ('hit' if obs['reused'] else 'miss'))
     stt = S.statuses(case, obs)
     for side in ('awg', 'dac'):
         if stt.lost[side]:
@@ -1471,31 +1597,40 @@ _PENDING = {}
 _FRAMED = {}
 
 
-def _coq_framed(pairs):
-    """[bool]: does Corr.check_framed accept (case, obs)?  fail-closed: False for all when coqc fails"""
+def _coq_eval(pairs):
+    """[(plain, framed)]: do Corr.check_plain / Corr.check_framed accept (case, obs)?  fail-closed: (True, False) = "not an
+    instance of the known finding" for all when coqc fails"""
     import tempfile
     if not pairs:
         return []
     wd = tempfile.mkdtemp(prefix='c18_framed_', dir=vlib.BUILD)
     try:
         terms = [to_coq(c, o) for c, o in pairs]
-        res = vlib.run_coq_cases(wd, CORR_IMPORTS, ['check_framed'], terms, shard=SHARD, prelude=PRELUDE)
-        bad = set(res['check_framed'])
-        return [i not in bad for i in range(len(pairs))]
+        res = vlib.run_coq_cases(wd, CORR_IMPORTS, ['check_framed', 'check_plain'], terms, shard=SHARD, prelude=PRELUDE)
+        bad_f, bad_p = set(res['check_framed']), set(res['check_plain'])
+        return [(i not in bad_p, i not in bad_f) for i in range(len(pairs))]
     except RuntimeError:
-        return [False] * len(pairs)
+        return [(True, False)] * len(pairs)
     finally:
         vlib.rmtree(wd)
 
 
+def _coq_framed(pairs):
+    """[bool]: does Corr.check_framed accept (case, obs)?  fail-closed: False for all when coqc fails"""
+    return [f for _, f in _coq_eval(pairs)]
+
+
 def framed_accepts(case, obs):
+    """known finding C18-rewire-stale <=> coqc's check_plain REJECTS the observation and coqc's check_framed ACCEPTS it.
+    (Round 5: a failure that only the Python mirror sees - check_plain and check_framed both accept - used to be filed
+    under the known finding as well; now it is a VIOLATION: mirror and Coq specification disagree.)"""
     k = vlib.canonical_hash(case)
     if k not in _FRAMED:
         _PENDING.setdefault(k, (case, obs))
         items = list(_PENDING.items())
         _PENDING.clear()
-        for (kk, _), ok in zip(items, _coq_framed([v for _, v in items])):
-            _FRAMED[kk] = ok
+        for (kk, _), (plain, framed) in zip(items, _coq_eval([v for _, v in items])):
+            _FRAMED[kk] = framed and not plain
     return _FRAMED[k]
 
 
@@ -1543,8 +1678,9 @@ def search_failing(ctx, broken):
     """specification oracle against the implementation on targeted + exhaustive + random histories"""
     import random
     rng = random.Random(12345)
-    pool = targeted(rng) + targeted_identity() + targeted_multimask() + targeted_malformed() + exhaustive(2) + exhaustive_small(3) + exhaustive_identity(2) + \
+    pool = targeted(rng) + targeted_identity() + targeted_multimask() + targeted_malformed() + targeted_ephemeral() + exhaustive(2) + exhaustive_small(3) + exhaustive_identity(2) + \
         [scenario_history(rng) for _ in range(300)] + [identity_history(rng) for _ in range(300)] + \
+        [ephemeral_history(rng) for _ in range(100)] + \
         [rnd_history(rng, rng.randint(6, 15), clean=True) for _ in range(400)] + \
         [rnd_history(rng, rng.randint(6, 15), clean=False) for _ in range(200)]
     suspects = []
@@ -1586,7 +1722,11 @@ MANIFEST = {
                   'names stay clean (guarded theorems kept).  The plain invariant without framing is refuted by a 3-call '
                   'witness (known finding C18-rewire-stale).  Model tied to the code by a step-by-step correspondence check on '
                   'the real objects after every call, with program objects and channel objects reused across calls; a '
-                  'program\'s own windows are read off a twin object that is never handed to the setup.',
+                  'program\'s own windows are read off a twin object that is never handed to the setup (they are an input of '
+                  'the model: that the setup registers the OBJECT\'s own windows - its per-object memory of taken measurements - '
+                  'is tested only).  Round 5: under the guard arm_program leaves EVERY generator (wired or not) armed with the '
+                  'name iff the program uses it (C18_arm_awg_exact); without the guard "disarms all other generators" is proved '
+                  'for wired generators only (un-wired ones keep their state: part of the known finding).',
     'level_note': 'Trusted: Coq kernel, harness, DummyAWG/DummyDAC as stand-ins for real drivers (set_volatile_parameters '
                   'replaced by a recorder; devices never raise RuntimeError, so the warning branches of remove_program are '
                   'not exercised), set/dict iteration order inside register_program is an input of the model chosen to '
